@@ -14,4 +14,5 @@ def units(tier):
     for l in [x for x in circuit_labels(tier) if x != 'tiny']:
         u.append(dict(kind="xlift", mechanism="xlift bounded (C), exact", name=f"xlift:simulator[{l}]", module="vf.tasks.t_fock", func="unit", args=dict(which="simulator", label=l)))
     u.append(dict(kind="func", mechanism="bounded runtime contract (C), native machine integers", name="bounded:large-occupations", module="vf.tasks.t_fock", func="unit_bigint", args={}))
+    u.append(dict(kind="func", mechanism="bounded runtime contract (C)", name="bounded:simulator-histories", module="vf.tasks.t_history", func="unit", args=dict(kind="simulator")))
     return u
